@@ -102,6 +102,44 @@ pub fn task_waker() -> (Arc<FlagWaker>, Waker) {
     TASK_WAKER.with(|w| (w.0.clone(), w.1.clone()))
 }
 
+/// Two wakers that share one data pointer and differ only in their vtable (what a static or allocation-free
+/// executor hands out: the task table is the data, the vtable says which task): `Waker::data()` is equal, `will_wake`
+/// is false. Each counts its own wakes.
+#[derive(Default)]
+pub struct Twin {
+    pub wakes: [AtomicU64; 2],
+}
+macro_rules! twin_vtable {
+    ($name:ident, $k:expr, $clone:ident, $wake:ident, $wake_ref:ident) => {
+        unsafe fn $clone(p: *const ()) -> std::task::RawWaker {
+            Arc::increment_strong_count(p as *const Twin);
+            std::task::RawWaker::new(p, &$name)
+        }
+        unsafe fn $wake(p: *const ()) {
+            let a = Arc::from_raw(p as *const Twin);
+            a.wakes[$k].fetch_add(1, AO::SeqCst);
+        }
+        unsafe fn $wake_ref(p: *const ()) {
+            (*(p as *const Twin)).wakes[$k].fetch_add(1, AO::SeqCst);
+        }
+        static $name: std::task::RawWakerVTable = std::task::RawWakerVTable::new($clone, $wake, $wake_ref, twin_drop);
+    };
+}
+unsafe fn twin_drop(p: *const ()) {
+    drop(Arc::from_raw(p as *const Twin));
+}
+twin_vtable!(TWIN_A, 0, twin_clone_a, twin_wake_a, twin_wake_ref_a);
+twin_vtable!(TWIN_B, 1, twin_clone_b, twin_wake_b, twin_wake_ref_b);
+pub fn twin_wakers() -> (Arc<Twin>, [Waker; 2]) {
+    let t = Arc::new(Twin::default());
+    let mk = |vt: &'static std::task::RawWakerVTable| unsafe {
+        let p = Arc::into_raw(t.clone()) as *const ();
+        Waker::from_raw(std::task::RawWaker::new(p, vt))
+    };
+    let w = [mk(&TWIN_A), mk(&TWIN_B)];
+    (t, w)
+}
+
 pub fn flag_waker_unpark() -> (Arc<FlagWaker>, Waker) {
     let f = Arc::new(FlagWaker { wakes: AtomicU64::new(0), thread: Some(std::thread::current()) });
     (f.clone(), Waker::from(f))
